@@ -111,6 +111,15 @@ PROPS = {
                     "the theorems cover the logic: block reservation (disjoint, contiguous) and channel hand-off (single consumer) under every interleaving of their atomic steps",
                     "parallel key generation and key-proof construction are exercised under the race detector by suites C16/C17 in the thorough tier"],
     },
+    "C16": {
+        "suite": "C16", "ref_sample": 40, "timeout": 3000,
+        "trusted": ["big.Int.ProbablyPrime (safe-prime tests) is an oracle, in the model and in the harness",
+                    "Go channel semantics of the worker stop protocol (select picks any ready case; close wakes all receivers); runtime.NumGoroutine as the observation of leftover workers",
+                    "crypto/ecdsa via package signed (revocation key pair checked by sign/verify)"],
+        "assumptions": ["LegendreSymbol(s,p)=1 coincides with the Euler symbol s^((p-1)/2)=1: theorem for odd primes < 400 and correspondence beyond (C19)"],
+        "partial": ["termination of generation is probabilistic (safe primes with the wanted residues keep arriving); proved: once stop is closed every worker finishes (progress measure), checked: goroutine count returns to the baseline",
+                    "that S with Euler symbol 1 mod p and q is a square mod n = pq needs the CRT recombination of the two roots (crt_spec in C19); stated per prime factor here"],
+    },
     "C15": {
         "suite": "C15",
         "mismatch_is_violation": True,   # the Coq definition is the property's reference
